@@ -160,22 +160,68 @@ func c06Grid(t *testing.T, tier string, shard, shards int, c *h.Collector) {
 	}
 }
 
+// c06HistScenarios: (a) an idle group holding expired tainted nodes, with every terminate / delete
+// failing — reaping trouble must not change the taint count; (b) auto-discovered bounds with the
+// cloud minimum edited while escalator runs.
+func c06HistScenarios(tier string) []*h.Scenario {
+	var out []*h.Scenario
+	{
+		g := StdGroup("g1")
+		g.Opts.FastNodeRemovalRate, g.Opts.SlowNodeRemovalRate = 2, 1
+		s := &h.Scenario{Name: "c06.reap-faults", Groups: []h.GroupSpec{g}, Slots: 4, Quantum: Q, MaxEventsPerSlot: 1,
+			FaultOps: map[string]bool{sim.OpTerminate: true, sim.OpK8sDelete: true},
+			Init: func(hh *h.Hist) {
+				a := InitASGs(hh)[0]
+				n := hh.W.AddNode(a, sim.NodeOpt{Age: 20 * Q})
+				hh.W.AddPod(podOn(g, n.Name, 100))
+				for i := 0; i < 4; i++ {
+					hh.W.AddNode(a, sim.NodeOpt{Age: time.Duration(21+i) * Q})
+				}
+				hh.W.AddNode(a, sim.NodeOpt{Age: 30 * Q, TaintAge: dp(5 * Q)})
+			},
+			Events: func(hh *h.Hist, slot int) []h.Event { return []h.Event{evBurst(g, 1, 1200), evClearPending(g), evRestart()} },
+		}
+		out = append(out, s)
+	}
+	{
+		g := StdGroup("g1")
+		g.Opts.MinNodes, g.Opts.MaxNodes = 0, 0
+		g.ASG.Min, g.ASG.Max = 1, 8
+		g.Opts.FastNodeRemovalRate, g.Opts.SlowNodeRemovalRate = 4, 2
+		s := &h.Scenario{Name: "c06.auto-bounds", Groups: []h.GroupSpec{g}, Slots: 4, Quantum: Q, MaxEventsPerSlot: 2,
+			Init: func(hh *h.Hist) {
+				a := InitASGs(hh)[0]
+				n := hh.W.AddNode(a, sim.NodeOpt{Age: 20 * Q})
+				hh.W.AddPod(podOn(g, n.Name, 100))
+				for i := 0; i < 5; i++ {
+					hh.W.AddNode(a, sim.NodeOpt{Age: time.Duration(21+i) * Q})
+				}
+			},
+			Events: func(hh *h.Hist, slot int) []h.Event {
+				return []h.Event{evASGEdit(g.ASG.Name, 3, 8), evASGEdit(g.ASG.Name, 5, 8), evASGEdit(g.ASG.Name, 0, 8), evASGEdit(g.ASG.Name, 1, 6), evBurst(g, 1, 2500), evClearPending(g), evRestart()}
+			},
+		}
+		out = append(out, s)
+	}
+	return out
+}
+
 func init() {
 	register(&Check{
 		ID:    "C06",
 		Level: "model_checking",
 		Rule: "grid: single real scans at |U| 1..4/5, |T| 0..2, min 0..2, six threshold triples, five rate pairs, exact utilisation at band interiors and at each threshold exactly and +/-1 request unit (CPU- and memory-driven), " +
-			"scale_on_starve with a pending pod larger/smaller than any node, max_node_age with/without an over-age node; plus the band monitor on the C01 and C02 history scenarios; " +
+			"scale_on_starve with a pending pod larger/smaller than any node, max_node_age with/without an over-age node; histories: an idle group holding expired tainted nodes with every terminate / delete failing, auto-discovered bounds with the cloud minimum edited at run time, and the band monitor on the C01 and C02 scenarios; " +
 			"non-trivial = unlocked in-bounds scans; distinct = (thresholds, rates, class, edge, |U|,|T|, min, observed taints/untaints/requests)",
 		Grid:       c06Grid,
 		ReplayCase: replayGrid(c06Build, c06Monitors),
-		Scenarios:  func(tier string) []*h.Scenario { return histScenarios(tier, C01Scenarios, C02Scenarios) },
+		Scenarios:  func(tier string) []*h.Scenario { return histScenarios(tier, c06HistScenarios, C01Scenarios, C02Scenarios) },
 		Monitors:   c06Monitors,
 		Bound: func(tier string) int {
 			if tier == "thorough" {
-				return 2
+				return 3
 			}
-			return 1
+			return 2
 		},
 		Prune:       true,
 		Nontrivial:  seenKeys,
